@@ -90,7 +90,9 @@ def info(prop):
                         "containing at least one loadable species; every subset of the loaded species given an end molecule (the empty subset and "
                         "the states 'maps not calculated' / 'one map missing' must raise SystemError and create no file); rectangular and triclinic box; "
                         "scale factors 0.5, 1.0, 1.7; title with and without trailing blanks; two topology loading orders; plus the shipped BMIM/BF4 box. "
-                        "Exchange maps are initialised directly (no Monte-Carlo).  The output is parsed by an independent fixed-width parser."),
+                        "Exchange maps are initialised directly (no Monte-Carlo).  The output is parsed by an independent fixed-width parser.  "
+                        "One obligation per (function, clause, scope family); a family is (first species of the sequence[, second], box kind, "
+                        "title variant) -- the families partition the scope and are what the pool runs in parallel."),
         "rule": ("one evaluation per (species sequence, subset with end molecule, box kind, scale, title variant); all are distinct inputs; "
                  "'nontrivial' counts per clause the evaluations that exercise it (e.g. >= 2 written molecules for numbering, "
                  ">= 2 written molecules or a skipped molecule for order)"),
@@ -603,7 +605,8 @@ class Agg:
         for clause, (ok, detail, nontriv) in results.items():
             self.n[clause] = self.n.get(clause, 0) + 1
             self.nt[clause] = self.nt.get(clause, 0) + (1 if nontriv else 0)
-            self.sample.setdefault(clause, case)
+            if clause not in self.sample or _size(case) > _size(self.sample[clause]):
+                self.sample[clause] = case              # the evidence shows the largest enumerated case
             if not ok:
                 self.nbad[clause] = self.nbad.get(clause, 0) + 1
                 self.first.setdefault(clause, (case, detail))
@@ -631,33 +634,44 @@ class Agg:
         return out
 
 
+def _size(case):
+    return len(case.get("seq", "")) + len(case["subset"])
+
+
 def _short(case):
     return {k: v for k, v in case.items() if k not in ("system_gro",)}
 
 
-def task_synthetic(shard, nshards, maxlen, seed):
+def family_name(maxlen, first, second, box, ti):
+    f = f"seq<={maxlen}/first={first}"
+    if second is not None:
+        f += f",second={second or 'none'}"
+    return f + f",box={box},title={'plain' if ti == 0 else 'trailing-blanks'}"
+
+
+def task_synthetic(maxlen, first, second, box, ti, seed):
+    """All sequences of the scope that start with `first` (and, when `second` is given, continue with
+    `second`; '' = length one), one box kind, one title variant (which also fixes the topology loading order)."""
     np.random.seed(12345 + seed)
     t0 = time.time()
-    agg = Agg(f"seq<={maxlen}/shard{shard:02d}of{nshards}")
+    agg = Agg(family_name(maxlen, first, second, box, ti))
     d = tempfile.mkdtemp(prefix="c05_")
     try:
-        for k, seq in enumerate(sequences(maxlen)):
-            if k % nshards != shard:
+        for seq in sequences(maxlen):
+            if seq[0] != first or (second is not None and seq[1:2] != second):
                 continue
-            for box in ("rect", "tric"):
-                for ti in (0, 1):
-                    texts, ranges = build_texts(seq, box, ti)
-                    model = model_from_synthetic(texts, ranges)
-                    files = write_files(d, texts)
-                    order = load_order_for(seq, ti)
-                    for sub in subsets(order):
-                        for scale in (SCALES if sub else SCALES[:1]):
-                            case = {"kind": "synthetic", "seq": seq, "subset": sub, "box": box, "scale": scale,
-                                    "title": ti, "load_order": order, "system_gro": texts["sys"]}
-                            try:
-                                agg.add(run_case(files, model, order, sub, scale, d), case)
-                            except Harness as e:
-                                agg.harness.append((case, str(e)))
+            texts, ranges = build_texts(seq, box, ti)
+            model = model_from_synthetic(texts, ranges)
+            files = write_files(d, texts)
+            order = load_order_for(seq, ti)
+            for sub in subsets(order):
+                for scale in (SCALES if sub else SCALES[:1]):
+                    case = {"kind": "synthetic", "seq": seq, "subset": sub, "box": box, "scale": scale,
+                            "title": ti, "load_order": order, "system_gro": texts["sys"]}
+                    try:
+                        agg.add(run_case(files, model, order, sub, scale, d), case)
+                    except Harness as e:
+                        agg.harness.append((case, str(e)))
     finally:
         shutil.rmtree(d, ignore_errors=True)
     return agg.obligations(time.time() - t0)
@@ -772,66 +786,95 @@ def _corruptions(text, model, complete):
     return out
 
 
+def _reference_observation(model, complete, scale, boxline):
+    """An output text that satisfies the contract, built by this module alone (no repo code):
+    big references get the target translated onto the input molecule (taken as 'the map'),
+    small references the target scaled about the reference atom."""
+    recs, expected, nr = [], [], 1
+    for m in model["mols"]:
+        if m["name"] not in complete:
+            continue
+        t = model["targets"][m["name"]]
+        if t["n_ref"] >= 3:
+            xyz = t["aa_xyz"] + (m["xyz"][0] - t["ref_first_xyz"][0]) + 0.00013
+            expected.append(xyz)
+        else:
+            xyz = m["xyz"][0] + scale * (t["aa_xyz"] - t["ref_first_xyz"][0])
+            expected.append(None)
+        for (rn, an, ri), x in zip(t["atoms"], xyz):
+            recs.append((m["resids"][ri], rn, an, nr, x))
+            nr += 1
+    return _fmt_gro(model["title"], recs, boxline), expected
+
+
+class _FakeManager:
+    """Stand-ins for the must-fail guards of the refusal clauses."""
+
+    def __init__(self, mode):
+        self.mode = mode
+
+    def extrapolate_system(self, path):
+        if self.mode in ("writes", "file-then-SystemError"):
+            with open(path, "w") as f:
+                f.write("x\n")
+        if self.mode in ("file-then-SystemError",):
+            raise SystemError("late")
+        if self.mode == "ValueError":
+            raise ValueError("wrong exception type")
+
+
 def task_guards(seed):
-    np.random.seed(4242 + seed)
     out = []
     d = tempfile.mkdtemp(prefix="c05g_")
     try:
-        seq, box, ti, scale = "RPQ", "tric", 1, 1.7
-        keep = {}
-        order = load_order_for(seq, ti)
-        try:
-            R, texts, model = synthetic_case(seq, box, ti, order, scale, d, keep=keep)
-        except Harness as e:
-            return [ob(f"{FN}/guard.must-fail/setup", "undecided", kind="guard", engine="smallscope", backend="runtime-contract",
-                       expect="refuted", reason=str(e))]
-        sane = all(v[0] for v in R.values()) and "text" in keep
-        out.append(ob(f"{FN}/guard.reference-case-holds", "discharged" if sane else "undecided", kind="guard", engine="smallscope",
-                      backend="runtime-contract", expect="discharged",
+        seq, box, ti, scale = "RPQWR", "tric", 1, 1.7
+        texts, ranges = build_texts(seq, box, ti)
+        model = model_from_synthetic(texts, ranges)
+        complete = set(load_order_for(seq, ti))
+        text, expected = _reference_observation(model, complete, scale, BOXES[box])
+        R = evaluate_output(model, complete, text, expected, scale)
+        sane = all(v[0] for v in R.values()) and set(OUTPUT_CLAUSES) <= set(R)
+        out.append(ob(f"{FN}/guard.conforming-observation-accepted", "discharged" if sane else "refuted", kind="guard",
+                      engine="smallscope", backend="runtime-contract", expect="discharged",
                       sample={"seq": seq, "box": box, "scale": scale, "clauses": sorted(R)},
                       reason="" if sane else "; ".join(f"{c}: {v[1]}" for c, v in R.items() if not v[0])[:500]))
-        if "text" in keep:
-            cor = _corruptions(keep["text"], model, set(order))
-            for clause in OUTPUT_CLAUSES:
-                if clause not in cor:
-                    out.append(ob(f"{FN}/guard.must-fail/{clause}", "undecided", kind="guard", engine="smallscope",
-                                  backend="runtime-contract", expect="refuted", reason="no corruption built"))
-                    continue
-                r = evaluate_output(model, set(order), cor[clause], keep["expected"], scale)
-                caught = clause in r and not r[clause][0]
-                out.append(ob(f"{FN}/guard.must-fail/{clause}", "refuted" if caught else "discharged", kind="guard",
-                              engine="smallscope", backend="runtime-contract", expect="refuted", evaluations=1,
-                              reason=(r.get(clause) or (None, "clause not evaluated"))[1][:300]))
-            # cross-read guard: a file GroFile must not agree with (count line says one atom more)
-            p = os.path.join(d, "broken.gro")
-            lines = keep["text"].split("\n")
-            with open(p, "w") as f:
-                f.write("\n".join([lines[0], "%5d" % (int(lines[1]) + 1)] + lines[2:]))
-            ok, det = _crossread(p, keep["text"])
-            out.append(ob(f"{FN}/guard.must-fail/{CROSS}", "refuted" if not ok else "discharged", kind="guard",
-                          engine="smallscope", backend="runtime-contract", expect="refuted", evaluations=1, reason=det[:300]))
-        # raises family: the refusal clause evaluated where the maps do exist must be refuted
-        from gaddlemaps import Manager
-        from gaddlemaps.components import System, Molecule
-        files = write_files(d, texts)
-        system, _ = _call(lambda: System(files["sys"], *[files["cg_itp"][n] for n in order]))
-        manager, _ = _call(Manager, system)
-        for n in order:
-            _call(manager.add_end_molecule, _call(Molecule.from_files, files["aa_gro"][n], files["aa_itp"][n])[0])
-        _call(manager.calculate_exchange_maps, scale)
-        ok, det = _expect_refusal(manager, os.path.join(d, "guard.gro"))
-        for clause in (RAISES_NONE, RAISES_MAP):
-            out.append(ob(f"{FN}/guard.must-fail/{clause}", "refuted" if not ok else "discharged", kind="guard",
+        cor = _corruptions(text, model, complete)
+        for clause in OUTPUT_CLAUSES:
+            if clause not in cor:
+                out.append(ob(f"{FN}/guard.must-fail/{clause}", "undecided", kind="guard", engine="smallscope",
+                              backend="runtime-contract", expect="refuted", reason="no corruption built"))
+                continue
+            r = evaluate_output(model, complete, cor[clause], expected, scale)
+            caught = clause in r and not r[clause][0]
+            out.append(ob(f"{FN}/guard.must-fail/{clause}", "refuted" if caught else "discharged", kind="guard",
                           engine="smallscope", backend="runtime-contract", expect="refuted", evaluations=1,
-                          reason="refusal clause evaluated on a manager whose maps all exist: " + det[:250]))
-        # vacuity: the scope contains written, skipped-unloaded, skipped-incomplete molecules and both reference sizes
+                          reason=(r.get(clause) or (None, "clause not evaluated"))[1][:300]))
+        # cross-read guard: a file GroFile must not agree with (count line says one atom more)
+        p = os.path.join(d, "broken.gro")
+        lines = text.split("\n")
+        with open(p, "w") as f:
+            f.write("\n".join([lines[0], "%5d" % (int(lines[1]) + 1)] + lines[2:]))
+        ok, det = _crossread(p, text)
+        good = os.path.join(d, "good.gro")
+        with open(good, "w") as f:
+            f.write(text)
+        ok2, det2 = _crossread(good, text)
+        out.append(ob(f"{FN}/guard.must-fail/{CROSS}", "refuted" if (not ok and ok2) else "discharged", kind="guard",
+                      engine="smallscope", backend="runtime-contract", expect="refuted", evaluations=2,
+                      reason=(det + " | conforming file: " + (det2 or "agrees"))[:300]))
+        # refusal clauses: must reject 'returns and writes', 'wrong exception type', 'file created before the error'
+        for mode in ("writes", "ValueError", "file-then-SystemError"):
+            ok, det = _expect_refusal(_FakeManager(mode), os.path.join(d, "guard.gro"))
+            out.append(ob(f"{FN}/guard.must-fail/raises.SystemError_and_no_file/{mode}", "refuted" if not ok else "discharged",
+                          kind="guard", engine="smallscope", backend="runtime-contract", expect="refuted", evaluations=1,
+                          reason=det[:250]))
+        # vacuity: the quick scope contains solvent, repeats, interleaving, the multi-residue and the one-atom species
         seqs = list(sequences(3))
         cover = {"solvent": any("W" in s for s in seqs), "repeat": any(len(set(s)) < len(s) for s in seqs),
                  "interleaved": "PRP" in seqs, "multi-residue": any("R" in s for s in seqs),
-                 "one-atom-reference": any("Q" in s for s in seqs)}
+                 "one-atom-reference": any("Q" in s for s in seqs), "sequences": len(seqs)}
         out.append(ob(f"{FN}/guard.scope-not-vacuous", "discharged" if all(cover.values()) else "refuted", kind="guard",
                       engine="smallscope", backend="enumeration", expect="discharged", sample=cover))
-        del manager, system
     finally:
         shutil.rmtree(d, ignore_errors=True)
     return out
@@ -843,9 +886,15 @@ def task_guards(seed):
 def tasks(prop, tier, seed):
     thorough = tier == "thorough"
     maxlen = 5 if thorough else 3
-    nsh = 64 if thorough else 16
-    t = [(f"synthetic/seq<={maxlen}/shard{k:02d}", task_synthetic, (k, nsh, maxlen, seed), 1800.0 if thorough else 300.0)
-         for k in range(nsh)]
+    t = []
+    for first in "PQRW":
+        for second in (("", "P", "Q", "R", "W") if thorough else (None,)):
+            if first == "W" and second == "":
+                continue                      # the one-molecule sequence 'W' has no loadable species
+            for box in ("rect", "tric"):
+                for ti in (0, 1):
+                    t.append(("synthetic/" + family_name(maxlen, first, second, box, ti), task_synthetic,
+                              (maxlen, first, second, box, ti, seed), 1800.0 if thorough else 300.0))
     if thorough:
         for sub in ([], ["BMIM"], ["BF4"], ["BMIM", "BF4"]):
             t.append((f"shipped-bmimbf4/{'+'.join(sub) or 'none'}", task_shipped, ([sub], SCALES, seed), 1800.0))
